@@ -5,7 +5,7 @@
    transfers of the distribution asset to the distributor's address by anybody (DStray: they run no contract code and
    belong to no epoch), at any times; rejected and aborting calls leave the state unchanged. *)
 From WW Require Import Prim Params Epochs Distributor.
-From WW.Proofs Require Import ArithLemmas DistributorProofs DistributorConservation.
+From WW.Proofs Require Import ArithLemmas DistributorProofs DistributorConservation DistributorCursor.
 
 (* in every reachable state: stored ids are exactly n..1; every epoch that still holds funds satisfies
    claimed + available = total; the distributor's balance is exactly the sum of the available amounts plus what plain
@@ -102,6 +102,20 @@ Theorem C09_conservation : forall c g h, 1 <= g -> dhist_wf h ->
   0 <= paid_out fs <= fees_in fs.
 Proof. exact distributor_conservation. Qed.
 
+(* the claim cursors over whole histories: a cursor always names a stored epoch (1 .. number of stored epochs), and along any
+   continuation of any history no address's cursor ever moves back - with C09_claim_exact (only epochs above the cursor are paid)
+   this is why a later claim can never reach an epoch already paid *)
+Theorem C09_cursors : forall c g h1 h2, 1 <= g -> dhist_wf h1 -> dhist_wf h2 ->
+  cursors_stored (dsrun c g h1) /\ cursors_le (dsrun c g h1) (dsrun c g (h1 ++ h2)).
+Proof. exact distributor_cursors. Qed.
+
+(* an accepted claim moves the claimer's cursor strictly forward *)
+Theorem C09_claim_moves_cursor : forall k c now s who fb shares s' f,
+  Inv k s -> shares_wf shares -> cursors_stored s -> dstep c now s (DClaim who fb shares) = Ok (s', f) ->
+  exists v', cfind who (d_cursor s') = Some v' /\
+    match cfind who (d_cursor s) with Some v => v < v' | None => True end.
+Proof. exact claim_cursor_strict. Qed.
+
 (* ---- non-vacuity -------------------------------------------------------------------------------------- *)
 Definition DAY : Z := 86400000000000.
 Definition T0 : Z := 1000 * DAY.
@@ -159,6 +173,15 @@ Example C09_conservation_nonvacuous :
   sum_avail (d_epochs s) = 1975 /\ sum_claimed (d_epochs s) = 15901 /\ d_bal s = 2975.
 Proof. vm_compute. repeat split; reflexivity. Qed.
 
+(* cursors on the history above: address 0 moved to 2, address 1 to 3, both stored epochs; the prefix of 4 events already has 0 at 2 *)
+Example C09_cursors_nonvacuous :
+  d_cursor (dsrun nv_c 2 (firstn 4 nv_h)) = [(0, 2)] /\ d_cursor (dsrun nv_c 2 nv_h) = [(0, 2); (1, 3)] /\
+  length (d_epochs (dsrun nv_c 2 nv_h)) = 4%nat /\ firstn 4 nv_h ++ skipn 4 nv_h = nv_h.
+Proof. vm_compute. repeat split; reflexivity. Qed.
+
+Print Assumptions C09_cursors_nonvacuous.
+Print Assumptions C09_cursors.
+Print Assumptions C09_claim_moves_cursor.
 Print Assumptions C09_conservation_nonvacuous.
 Print Assumptions C09_conservation.
 Print Assumptions C09_nonvacuous_with_attached_coins.
